@@ -1,9 +1,10 @@
 """C18 - all ways of loading a time zone give the same zone (narrow)."""
 from ..e5 import run_e5
-from ..rules_tz import find_key, parse_order
+from ..rules_tz import find_key, parse_order, fold_agree
 
 
 def run(ctx, rep):
+    fold_agree(rep, ctx.prog("Q"))
     prog = ctx.prog("Q")
     rep.notes.append("Does not decide behavioural equivalence of back-ends, slim vs fat, name case folding, POSIX Display<->parse.")
     run_e5(rep)
